@@ -149,3 +149,48 @@ Proof.
   rewrite classify_enc_int by exact Hz. rewrite Hf.
   destruct (zmem z found); apply IH; intros kv Hkv; apply H; right; exact Hkv.
 Qed.
+
+(** a null is emitted only for a nil field that is not omitempty *)
+Lemma enc_fields_omit_null {A} (value : field_tag -> A -> option (option cbor)) (a : A) : forall ts kvs,
+  enc_fields_gen value ts a = Some kvs ->
+  forall kv, In kv kvs -> exists f, In f ts /\ f_skip f = false /\ fst kv = enc_int (f_key f) /\
+                                    (value f a = Some (Some (snd kv)) \/
+                                     (value f a = Some None /\ snd kv = c_null /\ f_omitempty f = false)).
+Proof.
+  induction ts as [|f r IH]; intros kvs Henc kv Hin.
+  - cbn in Henc. injection Henc as <-. destruct Hin.
+  - cbn [enc_fields_gen] in Henc. destruct (f_skip f) eqn:Sk.
+    + destruct (IH kvs Henc kv Hin) as (g & G & X). exists g. split; [right; exact G|exact X].
+    + destruct (value f a) as [[v|]|] eqn:V; [| |discriminate];
+        (destruct (enc_fields_gen value r a) as [rest|] eqn:R; [|discriminate]).
+      * injection Henc as <-. destruct Hin as [<-|Hin].
+        -- exists f. cbn. repeat split; auto.
+        -- destruct (IH rest eq_refl kv Hin) as (g & G & X). exists g. split; [right; exact G|exact X].
+      * destruct (f_omitempty f) eqn:Om.
+        -- injection Henc as <-. destruct (IH rest eq_refl kv Hin) as (g & G & X). exists g. split; [right; exact G|exact X].
+        -- injection Henc as <-. destruct Hin as [<-|Hin].
+           ++ exists f. cbn. repeat split; auto.
+           ++ destruct (IH rest eq_refl kv Hin) as (g & G & X). exists g. split; [right; exact G|exact X].
+Qed.
+
+(** the field encoder fails only if some field's value cannot be produced *)
+Lemma enc_fields_none {A} (value : field_tag -> A -> option (option cbor)) (a : A) : forall ts,
+  enc_fields_gen value ts a = None -> exists f, In f ts /\ f_skip f = false /\ value f a = None.
+Proof.
+  induction ts as [|f r IH]; intro E; [discriminate|].
+  cbn [enc_fields_gen] in E. destruct (f_skip f) eqn:Sk.
+  - destruct (IH E) as (g & G & X). exists g. split; [right; exact G|exact X].
+  - destruct (value f a) as [[v|]|] eqn:V.
+    + destruct (enc_fields_gen value r a) eqn:R; [discriminate|].
+      destruct (IH eq_refl) as (g & G & X). exists g. split; [right; exact G|exact X].
+    + destruct (enc_fields_gen value r a) eqn:R; [destruct (f_omitempty f); discriminate|].
+      destruct (IH eq_refl) as (g & G & X). exists g. split; [right; exact G|exact X].
+    + exists f. repeat split; auto. left. reflexivity.
+Qed.
+
+Lemma enc_fields_ext {A} (value : field_tag -> A -> option (option cbor)) (a a' : A) : forall ts,
+  (forall f, In f ts -> value f a = value f a') -> enc_fields_gen value ts a = enc_fields_gen value ts a'.
+Proof.
+  induction ts as [|f r IH]; intro H; [reflexivity|].
+  cbn [enc_fields_gen]. rewrite (H f (or_introl eq_refl)), IH by (intros g G; apply H; right; exact G). reflexivity.
+Qed.
